@@ -74,9 +74,11 @@ type Verifier struct {
 	Regions       []*Obligation // known-finding region re-checks
 	Reports       []*FuncReport
 	Errors        []string // machinery errors
+	Warnings      []string // stale proof hints and the like: reported, never fatal
 	UsedEnv       map[string]bool
 	UsedSummaries map[string]bool
 	coveredPred   func(key string) bool
+	sweepDefault  func(fn *ssa.Function, callers map[*ssa.Function][]*ssa.Function) bool
 	Verified      map[string]bool
 	AllClauses    map[string]bool // functions verified with every clause (summary callees)
 }
@@ -176,6 +178,19 @@ func (v *Verifier) VerifyFunc(fc *FuncContract) {
 	}
 	for _, le := range ex.LoopErrors {
 		v.Errors = append(v.Errors, fc.Key+" "+le)
+	}
+	// loops without an invariant: the executions beyond the unrolling bound were NOT
+	// explored. One "bounded" pseudo-obligation per such loop keeps that visible
+	// (counted under bounded, never as proved).
+	var cutPos []string
+	for p := range ex.LoopCuts {
+		cutPos = append(cutPos, p)
+	}
+	sort.Strings(cutPos)
+	for _, p := range cutPos {
+		rep.Bounded += ex.LoopCuts[p]
+		v.Obls = append(v.Obls, &Obligation{Name: obligationName(fc, "loop_without_invariant@"+p), Func: fc.Key, Label: "loop_without_invariant", Kind: "bounded", Goal: TTrue, Bounded: true,
+			Notes: []string{fmt.Sprintf("loop at %s has no invariant: executions with more than %d iterations not explored (%d continuations dropped)", p, ex.Unroll, ex.LoopCuts[p])}})
 	}
 	// loop obligations produced during exploration
 	for _, lo := range ex.LoopObls {
@@ -293,7 +308,9 @@ func (v *Verifier) loopContracts(fn *ssa.Function, fc *FuncContract) map[*ssa.Ba
 	out := map[*ssa.BasicBlock]*LoopContract{}
 	for ord, cs := range byOrd {
 		if ord < 1 || ord > len(headers) {
-			v.Errors = append(v.Errors, fmt.Sprintf("%s: invariant for loop#%d but function has %d loops", fc.Key, ord, len(headers)))
+			// a stale proof hint: ignoring it cannot make anything unsound (the loops
+			// that do exist are then unrolled and their paths labelled bounded)
+			v.Warnings = append(v.Warnings, fmt.Sprintf("%s: invariant for loop#%d ignored, function has %d loops (contract out of date)", fc.Key, ord, len(headers)))
 			continue
 		}
 		out[headers[ord-1]] = &LoopContract{Ordinal: ord, Header: headers[ord-1], Invs: cs}
